@@ -241,8 +241,13 @@ func (w *worker) Exec(ctx context.Context, qc *query_context.Context) error {
 		if errAns {
 			qc.SetResponse(makeAnswer(qc.Q(), roleName[role]+"-with-error", name))
 		}
-		r.log(roleName[role]+".end", "error")
-		return errScripted
+		kind := r.c.PErrKind
+		if role == roleS {
+			kind = r.c.SErrKind
+		}
+		err := makeErr(kind, ctx) // before the end is logged: a kind may need the worker's context
+		r.log(roleName[role]+".end", strings.TrimSpace("error "+kind))
+		return err
 	}
 }
 
